@@ -3,6 +3,7 @@ package rules
 import (
 	"fmt"
 	"go/ast"
+	"go/constant"
 	"go/token"
 	"go/types"
 	"sort"
@@ -113,6 +114,8 @@ func (c *Ctx) rulePanicInventory(rule string, reach map[*ssa.Function]bool, root
 					r.Ok(rule, key, "inside a function with a deferred recover", where)
 				case c.exhaustiveDefault(pk, x, stack) != "":
 					r.Ok(rule, key, c.exhaustiveDefault(pk, x, stack), where)
+				case c.enumRangeGuard(pk, stack) != "":
+					r.Ok(rule, key, c.enumRangeGuard(pk, stack), where)
 				case f.Pkg.PkgPath == prog.ModulePath+"/scanner" && (f.Obj.Name() == "peek" || f.Obj.Name() == "shiftFound"):
 					r.Ok(rule, key+" ("+recvName(f.Obj)+")", "unreachable: the automaton analysis shows no pop of an empty step stack, no unmatched End event and no read of an empty event queue (C01-PDS-UNDERFLOW)", where)
 				default:
@@ -187,6 +190,63 @@ func (c *Ctx) exhaustiveDefault(pk *packages.Package, call *ast.CallExpr, stack 
 			return ""
 		}
 		return c.switchExhaustive(pk, sw)
+	}
+	return ""
+}
+
+// enumRangeGuard: the panic is the body of `if int(e) >= N` (N a constant, e.g. the length of an array) where e has a
+// module enum type all of whose constants are below N: the same argument as the exhaustive switch (values of the type
+// are its declared constants), for the table form of a String method.
+func (c *Ctx) enumRangeGuard(pk *packages.Package, stack []ast.Node) string {
+	for i := len(stack) - 1; i >= 0; i-- {
+		if _, isLit := stack[i].(*ast.FuncLit); isLit {
+			return ""
+		}
+		ifs, ok := stack[i].(*ast.IfStmt)
+		if !ok {
+			continue
+		}
+		be, ok := ast.Unparen(ifs.Cond).(*ast.BinaryExpr)
+		if !ok || (be.Op != token.GEQ && be.Op != token.GTR) {
+			return ""
+		}
+		tv := pk.TypesInfo.Types[be.Y]
+		if tv.Value == nil {
+			return ""
+		}
+		n, ok := constant.Int64Val(constant.ToInt(tv.Value))
+		if !ok {
+			return ""
+		}
+		if be.Op == token.GTR {
+			n++
+		}
+		x := ast.Unparen(be.X)
+		if call, isCall := x.(*ast.CallExpr); isCall && len(call.Args) == 1 && pk.TypesInfo.Types[call.Fun].IsType() {
+			x = ast.Unparen(call.Args[0])
+		}
+		named, ok := pk.TypesInfo.TypeOf(x).(*types.Named)
+		if !ok || named.Obj().Pkg() == nil || !c.P.IsLibPkg(named.Obj().Pkg()) {
+			return ""
+		}
+		if b, isBasic := named.Underlying().(*types.Basic); !isBasic || b.Info()&types.IsUnsigned == 0 {
+			return "" // a signed value could also be negative
+		}
+		cnt := 0
+		scope := named.Obj().Pkg().Scope()
+		for _, nm := range scope.Names() {
+			if k, isConst := scope.Lookup(nm).(*types.Const); isConst && types.Identical(k.Type(), named) {
+				v, exact := constant.Int64Val(constant.ToInt(k.Val()))
+				if !exact || v < 0 || v >= n {
+					return ""
+				}
+				cnt++
+			}
+		}
+		if cnt == 0 {
+			return ""
+		}
+		return fmt.Sprintf("guard of a table: each of the %d constants of %s is below the bound %d", cnt, named.Obj().Name(), n)
 	}
 	return ""
 }
@@ -415,6 +475,47 @@ func (c *Ctx) interactionPairs() map[string]string {
 	pairs := map[string]string{}
 	consistent := true
 	n := 0
+	// record one (key type, value type) pair; when the stored value has an interface type and key and value are
+	// parameters of a helper, the pair is taken from every call site of the helper instead
+	var record func(kT, vT types.Type, f *Fn, kE, vE ast.Expr, depth int)
+	record = func(kT, vT types.Type, f *Fn, kE, vE ast.Expr, depth int) {
+		if _, isIface := vT.Underlying().(*types.Interface); isIface {
+			ki, vi := paramIndexOf(f, kE), paramIndexOf(f, vE)
+			sites, closed := c.callersOf(f)
+			if depth > 2 || vi < 0 || paramAssigned(f, vE) || !closed || len(sites) == 0 {
+				consistent = false
+				return
+			}
+			for _, cs := range sites {
+				va := argFor(cs, vi)
+				if va == nil {
+					consistent = false
+					return
+				}
+				kT2, kE2 := kT, kE
+				if ki >= 0 && !paramAssigned(f, kE) {
+					if ka := argFor(cs, ki); ka != nil {
+						kT2, kE2 = cs.g.Pkg.TypesInfo.TypeOf(ka), ka
+					}
+				}
+				record(kT2, cs.g.Pkg.TypesInfo.TypeOf(va), cs.g, kE2, va, depth+1)
+			}
+			return
+		}
+		kt, vt := types.TypeString(kT, nil), types.TypeString(vT, nil)
+		if _, isIface := kT.Underlying().(*types.Interface); isIface {
+			consistent = false
+		}
+		if old, ok := pairs[kt]; ok && old != vt {
+			consistent = false
+		}
+		for k2, v2 := range pairs {
+			if v2 == vt && k2 != kt {
+				consistent = false
+			}
+		}
+		pairs[kt] = vt
+	}
 	for _, f := range c.libFns() {
 		ast.Inspect(f.Decl.Body, func(nd ast.Node) bool {
 			call, ok := nd.(*ast.CallExpr)
@@ -429,20 +530,7 @@ func (c *Ctx) interactionPairs() map[string]string {
 				return true
 			}
 			n++
-			kt := types.TypeString(f.Pkg.TypesInfo.TypeOf(call.Args[0]), nil)
-			vt := types.TypeString(f.Pkg.TypesInfo.TypeOf(call.Args[1]), nil)
-			if _, isIface := f.Pkg.TypesInfo.TypeOf(call.Args[1]).Underlying().(*types.Interface); isIface {
-				consistent = false
-			}
-			if old, ok := pairs[kt]; ok && old != vt {
-				consistent = false
-			}
-			for k2, v2 := range pairs {
-				if v2 == vt && k2 != kt {
-					consistent = false
-				}
-			}
-			pairs[kt] = vt
+			record(f.Pkg.TypesInfo.TypeOf(call.Args[0]), f.Pkg.TypesInfo.TypeOf(call.Args[1]), f, call.Args[0], call.Args[1], 0)
 			return true
 		})
 	}
